@@ -365,6 +365,14 @@ def r13_7(ctx):
     ctx.floor(rid, n, 2, "exchanges of a receiver member with a default-constructed local in members taking a same-class argument")
 
 
+PART_CASTS = {
+    ("Polyhedron", "constraints", "Constraint_System"): "installs the canonical unsatisfiable system of the right dimension in the constraint system of a polyhedron already marked empty: the value (empty) does not change",
+    ("Polyhedron", "generators", "Generator_System"): "as for constraints(): canonical empty generator system of an object marked empty",
+    ("Polyhedron", "strongly_minimize_generators", "Generator_System"): "strong minimization removes eps-redundant generators only (value-preserving reduction of the NNC representation; assumed as the other lazy updates are, see C01)",
+    ("Polyhedron", "strongly_minimize_generators", "Bit_Matrix"): "the saturation matrix is permuted together with the generators it describes",
+}
+
+
 def r13_4(ctx):
     """Const arguments: who may strip constness, and what they may then do."""
     import json
@@ -418,6 +426,30 @@ def r13_4(ctx):
                 ctx.violation(rid, inst, f.where(), "the const argument `%s` is modified by %s, beyond the representation-preserving operations %s" % (pn, extra, ent["ops"]))
             else:
                 ctx.excepted(rid, inst, f.where(), ent["why"])
+    # const members that strip constness from a PART of the receiver (a row, a system, a matrix) edit the representation
+    # in place instead of going through the lazy-update members of the whole object: each such site is tabled
+    for f in fx.functions:
+        if f.flag("pattern") or not f.flag("const"):
+            continue
+        own = ckey(f.cls).split("::")[-1]
+        for x in f.walk():
+            if x["k"] == "cast" and x.get("ck") == "const_cast" and x.get("c"):
+                r = f.root(x["c"][0])
+                if r[0] != "this":
+                    continue
+                t = F.strip_ns(x.get("t", ""))
+                if re.sub(r"[&*\s]|const", "", t).split("<")[0] == own:
+                    continue
+                key = (f.clsn, f.name, re.sub(r"[&*\s]|const", "", t))
+                if key in seen:
+                    continue
+                seen.add(key)
+                n += 1
+                inst = "%s::%s (const) writes through const_cast<%s> of a part of the receiver" % (f.clsn, f.name, t)
+                if key in PART_CASTS:
+                    ctx.excepted(rid, inst, f.where(x), PART_CASTS[key])
+                else:
+                    ctx.violation(rid, inst, f.where(x), "a const member edits a sub-object of the receiver in place (not one of the tabled representation-preserving sites): a query changes the object it is asked about")
     ctx.floor(rid, n, 50, "const_cast sites")
 
 
